@@ -230,6 +230,7 @@ func (p *BlockPipeline) Submit(ctx context.Context, blockType uint, rawCbor []by
 	// if we allocated in a non-blocking attempt that failed.
 	item := NewBlockItem(blockType, rawCbor, tip, p.sequenceCounter.Add(1)-1)
 
+	verifPt("submit.afterSeq", item)
 	select {
 	case p.submitChan <- item:
 		p.metrics.RecordSubmit()
